@@ -317,6 +317,20 @@ func (ch *channel) trDataSnapshot() (map[string]*trData, string) {
 	return trDatas, ch.masterTrName
 }
 
+// masterParams returns what the upload handler needs from the channel's start-up measurement.
+func (ch *channel) masterParams() (timescale, segDur uint32, timeShift, seqNrShift int64) {
+	ch.mu.RLock()
+	defer ch.mu.RUnlock()
+	return ch.masterTimescale, ch.masterSegDuration, ch.masterTimeShift, ch.masterSeqNrShift
+}
+
+// getMaxNrBufSegs returns the number of segments to keep per track (0 until the channel is started).
+func (ch *channel) getMaxNrBufSegs() uint32 {
+	ch.mu.RLock()
+	defer ch.mu.RUnlock()
+	return ch.maxNrBufSegs
+}
+
 func (ch *channel) addChunkData(rsd recSegData) {
 	slog.Debug("addChunkData", "chName", ch.name, "trName", rsd.name, "seqNr", rsd.seqNr, "chunkNr", rsd.chunkNr, "dur", rsd.dur)
 	ch.recSegCh <- rsd
@@ -367,8 +381,8 @@ func (ch *channel) receivedSegData(rsd recSegData) {
 						return
 					}
 					dur := sdb.items[1].dur
-					ch.masterSegDuration = dur
 					ch.mu.Lock()
+					ch.masterSegDuration = dur
 					rd := ch.trDatas[name]
 					ch.masterTimescale = rd.timeScaleOut
 					segTime0 := int64(sdb.items[0].dts)
@@ -393,8 +407,11 @@ func (ch *channel) receivedSegData(rsd recSegData) {
 					if err != nil {
 						log.Error("failed to write MPD", "err", err)
 					}
-					ch.maxNrBufSegs = ch.timeShiftBufferDepthS*ch.masterTimescale/ch.masterSegDuration + 2
-					windowSize := ch.maxNrBufSegs - 1
+					maxNrBufSegs := ch.timeShiftBufferDepthS*ch.masterTimescale/ch.masterSegDuration + 2
+					ch.mu.Lock()
+					ch.maxNrBufSegs = maxNrBufSegs
+					ch.mu.Unlock()
+					windowSize := maxNrBufSegs - 1
 					log.Info("Starting channel", "windowSize", windowSize, "seqNrShift", ch.masterSeqNrShift,
 						"timeShift", ch.masterTimeShift)
 					ch.segTimesGen.start(windowSize, ch.isShifted())
